@@ -74,7 +74,45 @@ def _promo_first(entry):
     return "_got" in c and same_unordered(c["_got"], alt)
 
 
+def _uses_nonconforming_default(d, s, ns, depth=0):
+    """the datum omits (somewhere) a field whose JSON default is not itself a conforming
+    Python value for the field's type (e.g. "NaN" for a float field, "\\u00ff" for bytes)"""
+    from spec import avro as A
+    if depth > 6:
+        return False
+    if isinstance(s, str) and s in ns:
+        return _uses_nonconforming_default(d, ns[s], ns, depth + 1)
+    if isinstance(s, list):
+        return any(_uses_nonconforming_default(d, b, ns, depth + 1) for b in s)
+    if isinstance(s, dict):
+        t = s.get("type")
+        if t in ("record", "error") and isinstance(d, dict):
+            for f in s["fields"]:
+                if f["name"] not in d:
+                    if "default" in f and not A.CONFORMS(f["default"], f["type"], ns, {}):
+                        return True
+                elif _uses_nonconforming_default(d[f["name"]], f["type"], ns, depth + 1):
+                    return True
+        if t == "array" and isinstance(d, (list, tuple)):
+            return any(_uses_nonconforming_default(x, s["items"], ns, depth + 1) for x in d)
+        if t == "map" and isinstance(d, dict):
+            return any(_uses_nonconforming_default(x, s["values"], ns, depth + 1) for x in d.values())
+    return False
+
+
+def _kf12(entry):
+    c = entry["case"]
+    return ("_p" in c and "validate -> False, the mapping says True" in entry["what"]
+            and _uses_nonconforming_default(c["_d"], c["_p"], c["_ns"]))
+
+
 BOUNDED = [
+    dict(id="KF12", property="C10", clause="validate_equals_conforms",
+         what=("validate checks an absent field's JSON default as if it were Python data: a float/double field with "
+               "default \"NaN\" (or a bytes/fixed field with a string default) makes validate reject a record that "
+               "omits the field, although the writer encodes it"),
+         match=_kf12),
+    dict(id="KF13", property="C10", clause="accepted_is_writable", what=DEDUCTIVE[0]["what"], match=_dictnull),
     dict(id="KF07", property="C08", clause="resolution",
          what=("a reader union is resolved to the first branch that matches at all (promotions included), not to the "
                "branch of the writer's own type first: writer int against reader [\"double\", \"int\"] yields 5.0"),
